@@ -20,8 +20,8 @@ import traceback
 
 VERIF_DIR = os.path.dirname(os.path.dirname(os.path.abspath(__file__)))
 EVIDENCE_DIR = os.path.join(VERIF_DIR, "evidence")
-REPLAY_DIR = os.path.join(VERIF_DIR, "replays")
-KNOWN_FINDINGS = os.path.join(VERIF_DIR, "known_findings.jsonl")
+REPLAY_DIR = os.environ.get("VERIF_REPLAY_DIR") or os.path.join(VERIF_DIR, "replays")
+KNOWN_FINDINGS = os.path.join(VERIF_DIR, "known_findings.txt")
 
 
 class HarnessError(Exception):
@@ -338,6 +338,9 @@ def ddmin(items: list, test, budget: list) -> list:
 
 
 def load_known_findings():
+    """known: property=<id> pattern=<json> :: <what>   |   fixed: property=<id> <commit> <what>"""
+    import re
+
     known, fixed = [], []
     if os.path.exists(KNOWN_FINDINGS):
         with open(KNOWN_FINDINGS) as fh:
@@ -345,8 +348,14 @@ def load_known_findings():
                 line = line.strip()
                 if not line or line.startswith("#"):
                     continue
-                rec = json.loads(line)
-                (known if rec.get("status") == "known" else fixed).append(rec)
+                m = re.match(r"known:\s+property=(\S+)\s+pattern=(\{.*?\})\s+::\s+(.*)$", line)
+                if m:
+                    known.append({"status": "known", "property": m.group(1), "pattern": json.loads(m.group(2)),
+                                  "what": m.group(3)})
+                    continue
+                m = re.match(r"fixed:\s+property=(\S+)\s+(\S+)\s+(.*)$", line)
+                if m:
+                    fixed.append({"status": "fixed", "property": m.group(1), "commit": m.group(2), "what": m.group(3)})
     return known, fixed
 
 
